@@ -14,6 +14,7 @@ import (
 	"encoding/json"
 	"fmt"
 	"os"
+	"os/exec"
 	"path/filepath"
 	"runtime/debug"
 	"sort"
@@ -23,6 +24,7 @@ import (
 
 	"github.com/go-text/typesetting/font"
 	ot "github.com/go-text/typesetting/font/opentype"
+	"github.com/go-text/typesetting/font/opentype/tables"
 	"github.com/go-text/typesetting/harfbuzz"
 	"github.com/go-text/typesetting/language"
 	"pgregory.net/rapid"
@@ -260,6 +262,19 @@ func pickFonts(n int) []*fontEntry {
 			ev.Label("font_port_rejects")
 			continue
 		}
+		// triage needs the reference: fonts it cannot load (woff, rejected faces) are left out
+		hb := fe.refFace()
+		if hb == nil || hb.GlyphCount() == 0 {
+			ev.Label("font_excluded_reference_rejects")
+			continue
+		}
+		if len(fe.face.GPOS.Lookups) != hb.LookupCount(tag32("GPOS")) || len(fe.face.GSUB.Lookups) != hb.LookupCount(tag32("GSUB")) {
+			if ev.Known(fGposDropped) {
+				ev.Excluded(fGposDropped)
+				ev.Note("font excluded under %s: %s#%d", fGposDropped, fe.rel, fe.index)
+				continue
+			}
+		}
 		out = append(out, fe)
 	}
 	return out
@@ -419,7 +434,30 @@ const (
 	// after the previous broken one has the same byte and gets no dotted circle, although the same
 	// text shaped from that syllable on does.
 	fSerialWrap = "C18-dotted-circle-serial-wraparound"
+	// the base cached by the mark-to-base / mark-to-ligature lookups (lastBase, lastBaseUntil) is
+	// not reset between lookups (upstream resets it in set_lookup_mask): which base a mark attaches
+	// to depends on glyphs far before it, so the same fragment shapes differently on its own
+	// (same defect as C05-mark-base-cache-not-reset, proposed_fixes/c05-mark-base-cache-not-reset.patch)
+	fMarkCache = "C18-mark-base-cache-not-reset"
+	// the shaper's general-category tables lack the <First>/<Last> ranges of UnicodeData.txt (CJK
+	// ideographs, Hangul syllables, ...): ensureNativeDirection ("a left-to-right run of a
+	// right-to-left script with digits and no letters keeps its direction") decides differently
+	// for the whole text and for a piece (same defect as C05-general-category-first-last-ranges)
+	fGenCat = "C18-general-category-first-last-ranges"
+	// the whole GPOS table of the font is dropped by the loader (PairPos2 class count check, see
+	// C05-pairpos2-class-count): none of the unsafe-to-break flags GPOS would set exist
+	fGposDropped = "C18-pairpos2-class-count"
 )
+
+func firstLastRange(r rune) bool {
+	for _, p := range [][2]rune{{0x3400, 0x4DBF}, {0x4E00, 0x9FFF}, {0xAC00, 0xD7A3}, {0x17000, 0x187F7}, {0x18D00, 0x18D08}, {0x20000, 0x2A6DF},
+		{0x2A700, 0x2B739}, {0x2B740, 0x2B81D}, {0x2B820, 0x2CEA1}, {0x2CEB0, 0x2EBE0}, {0x30000, 0x3134A}, {0x31350, 0x323AF}} {
+		if r >= p[0] && r <= p[1] {
+			return true
+		}
+	}
+	return false
+}
 
 var rtlScripts = map[language.Script]bool{
 	language.Arabic: true, language.Hebrew: true, language.Syriac: true, language.Thaana: true, language.Cypriot: true, language.Kharoshthi: true,
@@ -449,14 +487,38 @@ func graphemesReversed(script language.Script, dir harfbuzz.Direction) bool {
 }
 
 // referenceVerifies runs the same input through libharfbuzz with HB_BUFFER_FLAG_VERIFY: false when
-// upstream fails its own verification (triage only).
+// upstream fails its own verification (triage only). libharfbuzz 6.0.0 aborts on an assertion
+// inside that verification for some inputs ("text_start < text_end"), so the call is made in a
+// worker process (this test binary, TestRefVerifyWorker); an abort counts as a failed
+// verification.
 func referenceVerifies(fe *fontEntry, c *Case) (ok, available bool) {
 	hb := fe.refFace()
 	if hb == nil || hb.GlyphCount() == 0 {
 		return false, false
 	}
+	cmd := exec.Command(os.Args[0], "-test.run", "^TestRefVerifyWorker$", "-test.v")
+	cmd.Env = append(os.Environ(), "VERIF_OUT=", "C18_WORKER_CASE="+mustJSON(c))
+	out, _ := cmd.CombinedOutput()
+	switch {
+	case strings.Contains(string(out), "REF_VERIFY_OK"):
+		return true, true
+	case strings.Contains(string(out), "REF_VERIFY_FAIL"):
+		return false, true
+	case strings.Contains(string(out), "Assertion") || strings.Contains(string(out), "SIGABRT"):
+		ev.Label("reference_verify_aborts")
+		return false, true
+	}
+	return false, false
+}
+
+func mustJSON(v any) string {
+	b, _ := json.Marshal(v)
+	return string(b)
+}
+
+func refInput(c *Case, extraFlags int) hbref.Input {
 	in := hbref.Input{Text: c.runes(), ItemOffset: c.Offset, ItemLength: c.Length, Direction: c.Dir, Language: langOf(c),
-		Flags: c.Flags&0xF | hbref.FlagVerify, ClusterLevel: c.Cluster}
+		Flags: c.Flags&0xF | extraFlags, ClusterLevel: c.Cluster}
 	if c.Script != "" {
 		in.Script = tag32(c.Script)
 	}
@@ -467,7 +529,30 @@ func referenceVerifies(fe *fontEntry, c *Case) (ok, available bool) {
 		}
 		in.Features = append(in.Features, hbref.Feature{Tag: tag32(f.Tag), Value: f.Value, Start: uint32(f.Start), End: end})
 	}
-	return hb.Shape(in).OK, true
+	return in
+}
+
+// TestRefVerifyWorker is the worker side of referenceVerifies (not a test of its own).
+func TestRefVerifyWorker(t *testing.T) {
+	s := os.Getenv("C18_WORKER_CASE")
+	if s == "" {
+		t.Skip("worker only")
+	}
+	var c Case
+	if err := json.Unmarshal([]byte(s), &c); err != nil || c.wellFormed() != nil {
+		fmt.Println("REF_VERIFY_BADCASE")
+		return
+	}
+	fe, err := loadFont(c.Font, c.Index)
+	if err != nil || fe.refFace() == nil {
+		fmt.Println("REF_VERIFY_UNAVAILABLE")
+		return
+	}
+	if fe.refFace().Shape(refInput(&c, hbref.FlagVerify)).OK {
+		fmt.Println("REF_VERIFY_OK")
+	} else {
+		fmt.Println("REF_VERIFY_FAIL")
+	}
 }
 
 // checkCase is the property for one decoded case.
@@ -493,6 +578,15 @@ func checkCase(t ev.TB, fe *fontEntry, c *Case, survey func(check string, f fail
 		ev.Excluded(fLevel1)
 		ev.Case(false, c, append(labels, "excluded_level1_reversed")...)
 		return
+	}
+	if s.props.Direction == harfbuzz.LeftToRight && rtlScripts[s.props.Script] && ev.Known(fGenCat) {
+		for _, r := range text[itemStart:itemEnd] {
+			if firstLastRange(r) {
+				ev.Excluded(fGenCat)
+				ev.Case(false, c, append(labels, "excluded_gencat_ranges")...)
+				return
+			}
+		}
 	}
 	forward := s.props.Direction == harfbuzz.LeftToRight || s.props.Direction == harfbuzz.TopToBottom
 	if forward {
@@ -626,6 +720,13 @@ func checkCase(t ev.TB, fe *fontEntry, c *Case, survey func(check string, f fail
 		same = recon[i].same(whole[i])
 	}
 	if !same {
+		// inputs on which upstream fails its own verification come first (one listed finding);
+		// the structural matchers below only see what the reference handles correctly
+		if ok, avail := referenceVerifies(fe, c); avail && !ok && ev.Known(fUpstream) {
+			ev.Excluded(fUpstream)
+			ev.Label("upstream_inherited")
+			return
+		}
 		if dc, ok := fe.face.NominalGlyph(0x25CC); ok && ev.Known(fSerialWrap) {
 			strip := func(gs []G) []G {
 				var out []G
@@ -646,8 +747,45 @@ func checkCase(t ev.TB, fe *fontEntry, c *Case, survey func(check string, f fail
 				return
 			}
 		}
+		if markOffsetsOnly(fe, whole, recon) && ev.Known(fMarkCache) {
+			ev.Excluded(fMarkCache)
+			return
+		}
 		fail("cut", recon, cuts, "shaping the pieces cut at safe boundaries does not reproduce the whole-text shaping")
 	}
+}
+
+// markOffsetsOnly: the font has mark-to-base or mark-to-ligature lookups and the two sequences
+// differ only in the offsets of glyphs of GDEF class mark.
+func markOffsetsOnly(fe *fontEntry, a, b []G) bool {
+	if len(a) != len(b) || fe.face.GDEF.GlyphClassDef == nil {
+		return false
+	}
+	has := false
+	for _, l := range fe.face.GPOS.Lookups {
+		for _, st := range l.Subtables {
+			switch st.(type) {
+			case tables.MarkBasePos, tables.MarkLigPos:
+				has = true
+			}
+		}
+	}
+	if !has {
+		return false
+	}
+	for i := range a {
+		x, y := a[i], b[i]
+		if x.same(y) {
+			continue
+		}
+		if x.ID != y.ID || x.Cluster != y.Cluster || x.XAdv != y.XAdv || x.YAdv != y.YAdv {
+			return false
+		}
+		if cl, _ := fe.face.GDEF.GlyphClassDef.Class(tables.GlyphID(x.ID)); cl != 3 {
+			return false
+		}
+	}
+	return true
 }
 
 // ---- generator ----
